@@ -7,7 +7,7 @@
     divisor; the kernels are the as-is models of C02's DivWordModel.v (add::add_same_len_in_place,
     add::sub_same_len_in_place(_swap), cmp::cmp_same_len, shift::shl_in_place / shr_in_place), whose
     carry/borrow contracts are proved in DivWordProofs.v.  Debug assertions are [Panic Undocumented]. *)
-From Dashu Require Import Base.Prelude Base.Words Int.DivWordModel Int.ModRingModel.
+From Dashu Require Import Base.Prelude Base.Words Int.DivWordModel Int.ModRingPowModel Int.ModRingModel.
 Open Scope Z_scope.
 
 (** ConstLargeDivisor { normalized_divisor, shift, fast_div_top } (fast_div_top only feeds the division) *)
@@ -113,3 +113,85 @@ Definition lring_ok (R : lring) (r : ring) : Prop :=
   r_kind r = KLarge /\ Words.wf w (lr_nd R) /\ value (lr_nd R) = nd r /\ len (lr_nd R) = r_n r /\ lr_shift R = r_shift r.
 
 End WordLevel.
+
+(** ---------------- mul.rs / pow.rs on word lists ---------------- *)
+(** primitive::locate_top_word_plus_one: index of the most significant non-zero word, plus one *)
+Fixpoint top_plus_one (ws : list Z) : nat :=
+  match ws with
+  | [] => O
+  | x :: t => match top_plus_one t with
+              | O => if x =? 0 then O else 1%nat
+              | S k => S (S k)
+              end
+  end.
+
+(** `allocate_slice_fill(n.max(len), 0)` with the product written into its low words *)
+Definition pad_to (n : nat) (ws : list Z) : list Z := ws ++ repeat 0 (n - length ws).
+
+Section WordLevelMul.
+Variable w : Z.
+Local Notation B := (Words.B w).
+(** the multi-word kernels the modular code calls: mul::multiply, sqr::sqr (subjects of C01) and
+    div::div_rem_in_place (subject of C02: [lhs] becomes remainder ++ quotient, overflow flag) *)
+Variable mulk : list Z -> list Z -> result (list Z).
+Variable sqrk : list Z -> result (list Z).
+Variable divk : list Z -> list Z -> result (list Z * bool).
+
+(** the common tail of mul_normalized / sqr_normalized: `(product >> shift) % normalized_modulus`,
+    by a full division when the product is longer than the modulus, else one conditional subtraction *)
+Definition wl_reduce_product (R : lring) (product : list Z) (long : bool) : result (list Z) :=
+  let n := length (lr_nd R) in
+  let '(p1, carry) := shr_in_place w product (lr_shift R) in
+  if carry =? 0 then
+    if long then rbind (divk p1 (lr_nd R)) (fun '(res, _) => Ok (firstn n res))
+    else if is_ge (cmp_same_len p1 (lr_nd R)) then
+      let '(p2, borrow) := sub_same_len w p1 (lr_nd R) in
+      if borrow =? 0 then Ok p2 else Panic Undocumented
+    else Ok p1
+  else Panic Undocumented.
+
+Definition wl_mul_normalized (R : lring) (a b : list Z) : result (list Z) :=
+  let n := length (lr_nd R) in
+  if Nat.eqb (length a) n && Nat.eqb (length b) n then
+    let na := top_plus_one a in
+    let nb := top_plus_one b in
+    if Nat.eqb na 0 && Nat.eqb nb 0 then Ok (repeat 0 n)
+    else
+      rbind (if Nat.eqb na 1 && Nat.eqb nb 1 then
+               let p := hd 0 a * hd 0 b in Ok [p mod B; p / B]            (* split_dword(a0 * b0) *)
+             else mulk (firstn na a) (firstn nb b))
+            (fun prod => wl_reduce_product R (pad_to n prod) (n <? na + nb)%nat)
+  else Panic Undocumented.
+
+Definition wl_sqr_normalized (R : lring) (a : list Z) : result (list Z) :=
+  let n := length (lr_nd R) in
+  if Nat.eqb (length a) n then
+    let na := top_plus_one a in
+    if Nat.eqb na 0 then Ok (repeat 0 n)
+    else
+      rbind (if Nat.eqb na 1 then let p := hd 0 a * hd 0 a in Ok [p mod B; p / B]
+             else sqrk (firstn na a))
+            (fun prod => wl_reduce_product R (pad_to n prod) (n <? na * 2)%nat)
+  else Panic Undocumented.
+
+(** mul_in_place: `if lhs.0 == rhs.0` squaring shortcut *)
+Definition wl_mul_in_place (R : lring) (lhs rhs : list Z) : result (list Z) :=
+  if words_eqb lhs rhs then wl_sqr_normalized R lhs else wl_mul_normalized R lhs rhs.
+
+(** Reduced::sqr on the Large arm: sqr_in_place, then from_large *)
+Definition wl_sqr (R : lring) (a : list Z) : result (list Z) := rbind (wl_sqr_normalized R a) (wl_from_large R).
+
+(** large::pow: the sliding-window algorithm of ModRingPowModel.v on word lists (squarings by
+    sqr_in_place, table and window products by mul_normalized), then from_large *)
+Definition wlift1 (f : list Z -> result (list Z)) (x : result (list Z)) : result (list Z) := rbind x f.
+Definition wlift2 (f : list Z -> list Z -> result (list Z)) (x y : result (list Z)) : result (list Z) :=
+  rbind x (fun a => rbind y (fun b => f a b)).
+Definition wflatten (x : result (result (list Z))) : result (list Z) :=
+  match x with Ok v => v | Panic p => Panic p | Err e => Err e | OutOfFuel => OutOfFuel end.
+
+Definition wl_pow (R : lring) (raw : list Z) (exp : Z) : result (list Z) :=
+  rbind (wflatten (pow_large w (result (list Z)) (Ok (wl_one R)) (wlift1 (wl_sqr_normalized R))
+                    (wlift2 (wl_mul_normalized R)) (window_at w) (Ok raw) exp))
+        (wl_from_large R).
+
+End WordLevelMul.
